@@ -142,6 +142,19 @@ def part_files(ck, fmt):
         hist[kind] = hist.get(kind, 0) + 1
         ck.violation("file_%s.txt" % cid, scripts[cid] + "\n# %s\n# text:\n%s\n# denotes:\n%s\n" % (what, texts[cid], problem_text(K)),
                      "%s file %s: %s" % (fmt, cid, what), match=dict(kind=kind))
+    if fmt == "MPS":
+        # a last line that lacks its coefficient and its newline must not pick up text of the previous line
+        t = "NAME t\nROWS\n N obj\n L r1\nCOLUMNS\n y r1 1\n y obj 12345678\n x obj"
+        rc, out, err = run_io("CASE stale\nPUT f %s\nREAD h0 f MPS\nDUMPO h0\n" % enc(t))
+        ops = split_ops(split_cases(out)[1].get("stale", []))
+        rd = [o for o in ops if o[0][0] == "READ"]
+        ck.count(("MPS", t))
+        if rd and rd[0][0][1] == "OK":
+            P = dump_of([o for o in ops if o[0][0] == "P"][0])
+            ck.violation("file_stale.txt", "PUT f %s\nREAD h0 f MPS\nDUMPO h0\n# text:\n%s\n" % (enc(t), t),
+                         "MPS file whose last line ' x obj' has no coefficient and no newline is accepted; columns read: %s" % [(c[0], str(c[1])) for c in P["cols"]],
+                         match=dict(kind="mps-next-field"))
+            hist["mps-next-field"] = hist.get("mps-next-field", 0) + 1
     good = [c for c in got if c not in {f[0] for f in fails}]
     for cid in good[:2]:
         ck.sample(dict(kind=fmt + " file", text=texts[cid][:700], denotes=problem_text(known[cid][0])[:500]))
